@@ -30,8 +30,8 @@ theorem buildStore_inv (w : Op → Nat) {ops : List Op} (h : Admissible ops) :
 theorem Admissible.wf {ops : List Op} (h : Admissible ops) : WF ops := by
   cases h with
   | nil =>
-    exact ⟨List.Pairwise.nil, fun _ h => by cases h, fun _ h => by cases h, fun _ h => by cases h,
-      fun _ h => by cases h, fun _ h => by cases h⟩
+    exact ⟨List.Pairwise.nil, fun _ h => (by cases h), fun _ h => (by cases h), fun _ h => (by cases h),
+      fun _ h => (by cases h), fun _ h => (by cases h)⟩
   | snoc _ hw _ => exact hw
 
 /-! ## the canonical order depends only on the op set -/
@@ -145,29 +145,41 @@ def admissibleB (ops : List Op) : Bool :=
   (List.range ops.length).all (fun i => wfB (ops.take (i + 1)) &&
     (match ops[i]? with | some N => freshB (ops.take i) N | none => false))
 
-theorem admissibleB_sound : ∀ {ops : List Op}, admissibleB ops = true → Admissible ops := by
-  intro ops
-  induction ops using List.reverseRecOn with
-  | nil => intro _; exact .nil
-  | append_singleton ops N ih =>
-    intro h
-    unfold admissibleB at h
-    simp only [List.length_append, List.length_singleton, List.all_eq_true, List.mem_range,
-      Bool.and_eq_true] at h
-    have hlast := h ops.length (by omega)
-    have hw : wfB (ops ++ [N]) = true := by
-      have := hlast.1
-      simpa using this
-    have hf : freshB ops N = true := by
-      have := hlast.2
-      simpa using this
-    refine .snoc (ih ?_) (wfB_sound hw) (freshB_sound hf)
-    unfold admissibleB
-    simp only [List.all_eq_true, List.mem_range, Bool.and_eq_true]
-    intro i hi
-    have := h i (by omega)
-    rw [List.take_append_of_le_length (by omega), List.take_append_of_le_length (by omega),
-      List.getElem?_append_left hi] at this
-    exact this
+theorem admissibleB_snoc {ops : List Op} {N : Op} (h : admissibleB (ops ++ [N]) = true) :
+    admissibleB ops = true ∧ wfB (ops ++ [N]) = true ∧ freshB ops N = true := by
+  unfold admissibleB at h
+  simp only [List.length_append, List.length_singleton, List.all_eq_true, List.mem_range,
+    Bool.and_eq_true] at h
+  have hlast := h ops.length (by omega)
+  have htake : (ops ++ [N]).take (ops.length + 1) = ops ++ [N] := by
+    apply List.take_of_length_le; simp
+  have htake0 : (ops ++ [N]).take ops.length = ops := by
+    rw [List.take_append_of_le_length (Nat.le_refl _), List.take_length]
+  have hget : (ops ++ [N])[ops.length]? = some N := by simp
+  rw [htake, htake0, hget] at hlast
+  refine ⟨?_, hlast.1, hlast.2⟩
+  unfold admissibleB
+  simp only [List.all_eq_true, List.mem_range, Bool.and_eq_true]
+  intro i hi
+  have := h i (by omega)
+  rw [List.take_append_of_le_length (by omega), List.take_append_of_le_length (by omega),
+    List.getElem?_append_left hi] at this
+  exact this
+
+theorem admissibleB_sound_aux : ∀ (n : Nat) (ops : List Op), ops.length = n →
+    admissibleB ops = true → Admissible ops
+  | 0, ops, hl, _ => by
+    have : ops = [] := List.eq_nil_of_length_eq_zero hl
+    subst this; exact .nil
+  | n + 1, ops, hl, h => by
+    rcases List.eq_nil_or_concat ops with rfl | ⟨L, N, rfl⟩
+    · exact .nil
+    · rw [List.concat_eq_append] at h hl ⊢
+      obtain ⟨h1, h2, h3⟩ := admissibleB_snoc h
+      have hL : L.length = n := by simpa using hl
+      exact .snoc (admissibleB_sound_aux n L hL h1) (wfB_sound h2) (freshB_sound h3)
+
+theorem admissibleB_sound {ops : List Op} (h : admissibleB ops = true) : Admissible ops :=
+  admissibleB_sound_aux ops.length ops rfl h
 
 end AmVerif.Crdt
